@@ -180,6 +180,17 @@ func TestExpiryBounds(t *testing.T) {
 						ev.Never = E == 0
 						ev.EAtEq = true
 
+						// the generic map has a second, interface{}-typed walker (WalkDumpRestorer): same instant there
+						if of, ok := be.Raw().(*cache.ShardedMapOf[string]); ok {
+							_, _ = of.WalkDumpRestorer().Walk(func(e cache.Entry) error {
+								if string(e.Key()) == string(key) && !e.ExpireAt().Equal(walkEAt) {
+									ev.EAtEq = false
+								}
+
+								return nil
+							})
+						}
+
 						read := func() string {
 							r := be.Read(context.Background(), key)
 							if r.Class == "expired" && (r.EAt.UnixNano() != E || !walkEAt.Equal(r.EAt)) {
